@@ -137,6 +137,14 @@ Theorem C24_ts_written_exact : forall k rate pts i,
 Proof. exact ts_written_exact. Qed.
 Print Assumptions C24_ts_written_exact.
 
+(* the MPEG-TS recorder has its own copy of the branches over its own multiplyAndDivide *)
+Theorem C24_ts_recorded_exact : forall k rate pts i,
+  branch_rate_ok k rate = true -> 0 <= i -> in_int64 pts -> in_int64 (i * branch_spf k) ->
+  in_int64 (frame_pos k pts i) -> in_int64 (conv (frame_pos k pts i) rate ts_rate) ->
+  ts_written recorder__multiplyAndDivide k rate pts i = conv (frame_pos k pts i) rate ts_rate.
+Proof. exact ts_written_exact. Qed.
+Print Assumptions C24_ts_recorded_exact.
+
 Example C24_ts_written_example :
   ts_written protocols_mpegts__multiplyAndDivide TsAC3 44100 (-1099511627776 - 777) 3 = -2243901273357 /\
   conv (frame_pos TsAC3 (-1099511627776 - 777) 3) 44100 ts_rate = -2243901273357.
@@ -188,9 +196,7 @@ Print Assumptions C24_call_sites_exact.
 
 (* the rows that derive per-frame timestamps *)
 Theorem C24_call_sites_per_frame :
-  map cs_where (filter (fun s => is_frame (cs_qty s)) call_table) =
-  ["internal/protocols/mpegts/from_stream.go FromStream"%string;
-   "internal/recorder/format_mpegts.go (*formatMPEGTS).initialize"%string].
+  map (fun s => (cs_where s, cs_callee s)) (filter (fun s => is_frame (cs_qty s)) call_table) = per_frame_sites.
 Proof. exact call_table_frame_sites. Qed.
 Print Assumptions C24_call_sites_per_frame.
 
